@@ -54,7 +54,12 @@ theorem str_dispatch (fs : Path → Option Text) (ls : List Str) (h : ∀ l ∈ 
     rcases hsep with e | e <;> subst e
     · exact (splitlines_join ls h).1
     · exact (splitlines_join ls h).2.1
-  simp only [readConfig, hs]
+  simp only [readConfig, readStr, hs]
+
+/-- a `pathlib.Path` is read exactly like the string `str(path)`: same lines or same error, same tree -/
+theorem path_reads_like_str (fs : Path → Option Text) (cfg : Tree.Cfg) (p : Path) :
+    initLines fs (.path p) = initLines fs (.str p) ∧ load cfg fs (.path p) = load cfg fs (.str p) :=
+  ⟨rfl, rfl⟩
 
 /-- the six ways of handing over the same configuration -/
 def formsOf (ls : List Str) : List Input :=
@@ -63,13 +68,15 @@ def formsOf (ls : List Str) : List Input :=
 /-- **Forms agree.**  For every list `ls` of at least two lines, none containing a line-break
 character, the last one not empty: the list, the tuple, the string joined with LF, the string
 joined with CRLF, and both strings with a final line end are all read as exactly the lines `ls`
-(whatever the file system holds), hence give the identical parsed tree.
+(whatever the file system holds), hence give the identical parsed tree; so does a `pathlib.Path`
+whose `str()` is one of these strings (a Path is read exactly like its string, `path_reads_like_str`).
 (With fewer than two lines a string is not a config but a path — `single_line_str_is_path`;
 with a last line that is empty the string forms report one line less — `splitlines_join`.) -/
 theorem forms_agree (fs : Path → Option Text) (cfg : Tree.Cfg) (ls : List Str)
     (hbf : ∀ l ∈ ls, BreakFree l) (h2 : 2 ≤ ls.length) (hlast : ls.getLast? ≠ some []) :
     (∀ i ∈ formsOf ls, initLines fs i = .ok ls) ∧
-    (∀ i ∈ formsOf ls, load cfg fs i = .ok (Tree.parse cfg ls)) := by
+    (∀ i ∈ formsOf ls, load cfg fs i = .ok (Tree.parse cfg ls)) ∧
+    (∀ s, Input.str s ∈ formsOf ls → load cfg fs (.path s) = .ok (Tree.parse cfg ls)) := by
   have hne : ls ≠ [] := by intro e; subst e; simp at h2
   obtain ⟨_, _, hfin, hpl⟩ := splitlines_join ls hbf
   obtain ⟨h3, h4⟩ := hfin hne
@@ -78,7 +85,7 @@ theorem forms_agree (fs : Path → Option Text) (cfg : Tree.Cfg) (ls : List Str)
     intro s hs
     have hn1 : ¬ ls.length = 1 := by omega
     have hn2 : ls.length > 1 := by omega
-    simp [initLines, readConfig, hs, hn1, hn2, handleBrace, bind, Except.bind]
+    simp [initLines, readConfig, readStr, hs, hn1, hn2, handleBrace, bind, Except.bind]
   have all : ∀ i ∈ formsOf ls, initLines fs i = .ok ls := by
     intro i hi
     simp only [formsOf, List.mem_cons, List.not_mem_nil, or_false] at hi
@@ -89,29 +96,33 @@ theorem forms_agree (fs : Path → Option Text) (cfg : Tree.Cfg) (ls : List Str)
     · exact key _ h2'
     · exact key _ h3
     · exact key _ h4
-  refine ⟨all, ?_⟩
-  intro i hi
-  simp [load, all i hi, Except.map]
+  have allLoad : ∀ i ∈ formsOf ls, load cfg fs i = .ok (Tree.parse cfg ls) := by
+    intro i hi
+    simp [load, all i hi, Except.map]
+  exact ⟨all, allLoad, fun s hs => (path_reads_like_str fs cfg s).2.trans (allLoad _ hs)⟩
 
 /-- a string in which `splitlines` finds exactly one line — no line break at all, or only a final
-one — is taken for a **file path**: the answer is the content of that file, and
-`FileNotFoundError` when nothing is there.  It is never parsed as a one-line config. -/
+one — is taken for a **file path**, and so is a `pathlib.Path` with such a string: the answer is
+the content of that file, and `FileNotFoundError` when nothing is there.  It is never parsed as a
+one-line config. -/
 theorem single_line_str_is_path (fs : Path → Option Text) (s : Str) (h : (splitlines s).length = 1) :
     initLines fs (.str s) = (match fs s with
       | none => .error .fileNotFound
-      | some raw => .ok (fileLines raw)) := by
-  simp only [initLines, readConfig, h, if_true, readConfigFile]
+      | some raw => .ok (fileLines raw)) ∧
+    initLines fs (.path s) = initLines fs (.str s) := by
+  refine ⟨?_, rfl⟩
+  simp only [initLines, readConfig, readStr, h, if_true, readConfigFile]
   cases fs s <;> rfl
 
 /-- the empty string is rejected (`InvalidParameters`), `None` and the empty list/tuple are the
-empty config; a `pathlib.Path` raises `TypeError` (finding F91: `len()` is taken first). -/
-theorem degenerate_inputs (fs : Path → Option Text) (p : Path) :
+empty config.  (`str(pathlib.Path(""))` is `"."`, so a Path never reaches the empty-string case.) -/
+theorem degenerate_inputs (fs : Path → Option Text) :
     initLines fs (.str []) = .error .invalidParameters ∧
-    initLines fs .none = .ok [] ∧ initLines fs (.list []) = .ok [] ∧ initLines fs (.tuple []) = .ok [] ∧
-    initLines fs (.path p) = .error .typeError := by
-  refine ⟨rfl, rfl, rfl, rfl, rfl⟩
+    initLines fs .none = .ok [] ∧ initLines fs (.list []) = .ok [] ∧ initLines fs (.tuple []) = .ok [] := by
+  refine ⟨rfl, rfl, rfl, rfl⟩
 
-/-- **File input.**  A path (a single-line string naming an existing file) yields the file's text
+/-- **File input.**  A path (a single-line string, or a `pathlib.Path` with such a string, naming
+an existing file) yields the file's text
 split at its line ends, as the code does it: universal newlines (`\r\n`, `\r` → `\n`), then the
 `\r*\n` split.  The result is *the* splitting of the translated text at `\n`: joining the lines
 with `\n` gives the translated text back, no line contains `\n` or `\r`, there is at least one
@@ -121,7 +132,7 @@ match, the result equals the plain split at `\n`.  The translation itself leaves
 the identity on texts without `\r`. -/
 theorem file_split_spec (fs : Path → Option Text) (p : Path) (raw : Text)
     (hp : (splitlines p).length = 1) (hf : fs p = some raw) :
-    initLines fs (.str p) = .ok (fileLines raw) ∧
+    initLines fs (.str p) = .ok (fileLines raw) ∧ initLines fs (.path p) = .ok (fileLines raw) ∧
     fileLines raw = splitRegexCRLF (universalNewlines raw) ∧
     fileLines raw = splitOn '\n' (universalNewlines raw) ∧
     join LF (fileLines raw) = universalNewlines raw ∧
@@ -130,9 +141,10 @@ theorem file_split_spec (fs : Path → Option Text) (p : Path) (raw : Text)
     NoCR (universalNewlines raw) ∧ (NoCR raw → universalNewlines raw = raw) := by
   have hsp : fileLines raw = splitOn '\n' (universalNewlines raw) :=
     splitRegexCRLF_noCR _ (universalNewlines_noCR raw)
-  refine ⟨?_, rfl, hsp, ?_, (fileLines_clean raw).1, (fileLines_clean raw).2, ?_,
+  have hstr : initLines fs (.str p) = .ok (fileLines raw) := by
+    rw [(single_line_str_is_path fs p hp).1, hf]
+  refine ⟨hstr, hstr, rfl, hsp, ?_, (fileLines_clean raw).1, (fileLines_clean raw).2, ?_,
     universalNewlines_noCR raw, universalNewlines_id raw⟩
-  · rw [single_line_str_is_path fs p hp, hf]
   · rw [hsp]; exact (join_splitOn _).1
   · intro ls hne hl hj
     rw [hsp, ← hj]; exact (splitOn_join ls hne hl).symm
@@ -193,10 +205,10 @@ theorem save_load_paths (cfg : Tree.Cfg) (sep : Str) (hs : IsLinesep sep) (fs : 
       b₁ = cycle cfg sep raw ∧
       ∃ t₁, load cfg (fsWrite fs q b₁) (.str q) = .ok t₁ ∧ saveAs sep (getText t₁) = b₁ := by
   refine ⟨Tree.parse cfg (fileLines raw), ?_, rfl, Tree.parse cfg (fileLines (cycle cfg sep raw)), ?_, ?_⟩
-  · simp [load, single_line_str_is_path fs p hp, hf, Except.map]
+  · simp [load, (single_line_str_is_path fs p hp).1, hf, Except.map]
   · have : fsWrite fs q (saveAs sep (getText (Tree.parse cfg (fileLines raw)))) q
         = some (cycle cfg sep raw) := by simp [fsWrite]; rfl
-    simp [load, single_line_str_is_path _ q hq, this, Except.map]
+    simp [load, (single_line_str_is_path _ q hq).1, this, Except.map]
   · exact cycleG_fix (stable_texts cfg) sep hs raw
 
 /-- what the first save holds and what is read back from it: the object's lines, with a final
@@ -246,6 +258,8 @@ example : (formsOf demo).map (fun i => (initLines (fun _ => none) i).toOption) =
 -- a one-line string is a path: nothing there → FileNotFoundError; something there → its lines
 example : initLines (fun _ => none) (.str "hostname R1".toList) = .error .fileNotFound := by rfl
 example : initLines (fun p => if p = "r1.cfg".toList then some "a\r\n b\r\n".toList else none) (.str "r1.cfg".toList)
+    = .ok ["a".toList, " b".toList, []] := by rfl
+example : initLines (fun p => if p = "r1.cfg".toList then some "a\r\n b\r\n".toList else none) (.path "r1.cfg".toList)
     = .ok ["a".toList, " b".toList, []] := by rfl
 -- splitlines: VT and NEL break, `\r\n` breaks once, a final line end adds nothing
 example : splitlines "a\x0bb\r\nc\u0085".toList = ["a".toList, "b".toList, "c".toList] := by decide
